@@ -6,6 +6,7 @@
 #include "runner.h"
 
 #include <algorithm>
+#include <errno.h>
 
 namespace sim {
 
@@ -147,10 +148,193 @@ void gen_c18(Plan &p, Rng &r, bool thorough) {
   }
 }
 
+// ---------------------------------------------------------------------------------------------------
+// C20: asmline as a simulated process; 1..3 invocations sharing the simulated file system
 void gen_c20(Plan &p, Rng &r, bool thorough) {
-  (void)p;
-  (void)r;
   (void)thorough;
+  uint64_t ctr = 0;
+  Task t;
+  int ninv = 1 + (r.chance(1, 3) ? 1 : 0) + (r.chance(1, 8) ? 1 : 0);
+  {
+    FileSpec d;
+    d.path = "/sim/dir";
+    d.kind = 2;
+    p.world.files.push_back(d);
+  }
+  for (int inv = 0; inv < ninv; inv++) {
+    Op o;
+    o.kind = OP_LAUNCH;
+    o.uid = uid_of(p, ctr);
+    std::vector<std::string> flags;
+    bool long_mode_flag = false;
+    // mode flags
+    unsigned gw = (unsigned)r.below(10);
+    if (gw < 5) {
+      static const char *grp[] = {"-n", "-t", "-s", "--nasm", "--strict", "--smart"};
+      flags.push_back(grp[r.below(6)]);
+    }
+    if (r.chance(1, 4)) {
+      static const char *f[] = {"--nasm-mov-imm", "--strict-mov-imm", "--smart-mov-imm"};
+      flags.push_back(f[r.below(3)]);
+      long_mode_flag = true;
+    }
+    if (r.chance(1, 5)) {
+      flags.push_back(r.coin() ? "--nasm-sib" : "--strict-sib");
+      long_mode_flag = true;
+    }
+    if (r.chance(1, 5)) {
+      flags.push_back(r.coin() ? "--nasm-sib-index-base-swap" : "--strict-sib-index-base-swap");
+      long_mode_flag = true;
+    }
+    if (r.chance(1, 5)) {
+      flags.push_back(r.coin() ? "--nasm-sib-no-base" : "--strict-sib-no-base");
+      long_mode_flag = true;
+    }
+    // outputs
+    bool run = r.chance(1, 4), rnd = false;
+    if (run && r.chance(1, 4)) rnd = true;
+    bool print = r.coin();
+    bool counting = false, fitting = false;
+    unsigned cw = (unsigned)r.below(12);
+    long N = r.chance(3, 4) ? r.range(2, 32) : r.range(33, 300);
+    if (cw < 4) fitting = true;
+    else if (cw < 7) counting = true;
+    unsigned ow = (unsigned)r.below(10);
+    std::string outflag, outarg;
+    if (ow < 3) {
+      outflag = r.coin() ? "-P" : "--printfile";
+      unsigned pw = (unsigned)r.below(12);
+      outarg = pw == 0 ? "/sim/dir" : pw == 1 ? "/sim/nodir/o.bin" : "/sim/out" + std::to_string(r.below(2)) + ".bin";
+    } else if (ow < 5) {
+      outflag = r.coin() ? "-o" : "--object";
+      outarg = r.coin() ? "obj" : "/sim/obj" + std::to_string(r.below(2));
+    } else if (ow == 5 && !print && !counting && !run) {
+      outflag = "-P";
+      outarg = "/dev/stdout";
+    }
+    // invalid argument cases
+    bool invalid = r.chance(1, 14);
+    if (invalid) {
+      unsigned iw = (unsigned)r.below(5);
+      if (iw == 0) {
+        fitting = true;
+        counting = false;
+        N = (long)r.range(-1, 1);
+      } else if (iw == 1) {
+        counting = true;
+        fitting = false;
+        N = (long)r.range(-1, 1);
+      } else if (iw == 2) {
+        outflag = "-o";
+        outarg = "name.with.dot";
+      } else if (iw == 3 && !long_mode_flag) {
+        flags.push_back("--no-such-option");
+      } else if (!long_mode_flag) {
+        flags.push_back("-x");
+      } else
+        invalid = false;
+    }
+    if (print) flags.push_back(r.coin() ? "-p" : "--print");
+    if (fitting) {
+      flags.push_back(r.coin() ? "-c" : "--chunk");
+      flags.push_back(std::to_string(N));
+    }
+    if (counting) {
+      flags.push_back(r.coin() ? "-b" : "--breaks");
+      flags.push_back(std::to_string(N));
+    }
+    if (run && !rnd) flags.push_back(r.chance(1, 3) ? "-r=3" : r.coin() ? "-r" : "--return");
+    if (rnd) flags.push_back("--rand");
+    // program
+    std::vector<std::string> prog;
+    int nl = (int)r.geom(1, 30, 7);
+    if (run) {
+      prog = exec_prog(r, nl);
+    } else {
+      for (int q = 0; q < nl; q++) {
+        if (r.chance(1, 8) && !corpus_fillers().empty()) prog.push_back(ltext(r.pick(corpus_fillers())));
+        prog.push_back(any_instr(r));
+      }
+      if (r.chance(1, 9) && !corpus_rejects().empty()) prog.insert(prog.begin() + (long)r.below(prog.size() + 1), ltext(r.pick(corpus_rejects())));
+    }
+    bool fin = r.chance(3, 4);
+    std::string text;
+    for (size_t q = 0; q < prog.size(); q++) {
+      text += prog[q];
+      if (q + 1 < prog.size() || fin) text.push_back('\n');
+    }
+    o.input = text;
+    o.from_stdin = r.coin();
+    // shuffle the flags that stand alone; keep flag+argument pairs together
+    std::vector<std::vector<std::string>> groups;
+    for (size_t q = 0; q < flags.size(); q++) {
+      std::vector<std::string> gq{flags[q]};
+      if ((flags[q] == "-c" || flags[q] == "--chunk" || flags[q] == "-b" || flags[q] == "--breaks") && q + 1 < flags.size()) gq.push_back(flags[++q]);
+      groups.push_back(gq);
+    }
+    if (!outflag.empty()) {
+      if (outflag == "-P" && r.chance(1, 3))
+        groups.push_back({"-P" + outarg});
+      else
+        groups.push_back({outflag, outarg});
+    }
+    for (size_t q = groups.size(); q > 1; q--) std::swap(groups[q - 1], groups[r.below(q)]);
+    o.argv.push_back("asmline");
+    std::string file;
+    if (!o.from_stdin) {
+      if (r.chance(1, 25))
+        file = "/sim/missing.asm";
+      else {
+        FileSpec f;
+        f.path = "/sim/in" + std::to_string(inv) + ".asm";
+        f.data = text;
+        p.world.files.push_back(f);
+        file = f.path;
+      }
+    }
+    size_t file_pos = file.empty() ? (size_t)-1 : (r.chance(2, 3) ? groups.size() : r.below(groups.size() + 1));
+    for (size_t q = 0; q <= groups.size(); q++) {
+      if (q == file_pos) o.argv.push_back(file);
+      if (q < groups.size())
+        for (auto &x : groups[q]) o.argv.push_back(x);
+    }
+    if (o.from_stdin) {
+      unsigned sw = (unsigned)r.below(8);
+      static const int fixed[] = {1, 2, 3, 7, 4096};
+      if (sw < 5)
+        o.chunks = {fixed[sw]};
+      else if (sw < 7) {
+        int k = (int)r.range(2, 6);
+        for (int q = 0; q < k; q++) o.chunks.push_back((int)r.range(1, 40));
+      }
+    }
+    // failing outputs
+    if (!outflag.empty() && outarg != "/dev/stdout" && r.chance(1, 8)) {
+      EnvAns a;
+      unsigned fw = (unsigned)r.below(4);
+      if (fw == 0) {
+        a.call = K_FOPEN;
+        a.ans = ANS_FAIL;
+        a.err = r.coin() ? EACCES : ENOSPC;
+      } else if (fw == 1) {
+        a.call = K_CWRITE;
+        a.ans = ANS_FAIL;
+        a.err = ENOSPC;
+      } else if (fw == 2) {
+        a.call = K_CWRITE;
+        a.ans = ANS_SHORT;
+        a.arg = (long)r.below(40);
+        a.err = ENOSPC;
+      } else {
+        a.call = K_FCLOSE;
+        a.ans = ANS_FAIL;
+        a.err = EIO;
+      }
+      o.env.push_back(a);
+    }
+    t.ops.push_back(o);
+  }
+  p.tasks.push_back(t);
 }
 
 }  // namespace sim
